@@ -109,3 +109,19 @@ Theorem C01_roundtrip_unchunked : forall c ops s e,
   refines_u c st (fold_left (spec_step c) ops spec_init).
 Proof. exact roundtrip_unchunked. Qed.
 Print Assumptions C01_roundtrip_unchunked.
+
+(* ---- element types.  The extension's get_hdf5_data_type (regenerated from the source on every run,
+   Gen/DtypeTable.v) stores every numpy component type the writer accepts as an HDF5 type of the same
+   class, signedness, size and -- beyond one byte -- byte order; so the bytes handed over are
+   interpreted as the type they were written in.  (The conversion of values by numpy/HDF5 themselves is
+   outside the model: compared bit for bit on full-range values.) *)
+From Coq Require Import String.
+From DRF Require Import Model.FillValue Model.Dtype Gen.DtypeTable Proofs.DtypeProofs.
+
+Theorem C01_element_type_faithful : forall k sz be,
+  In (k, sz) [(KI, 1); (KI, 2); (KI, 4); (KI, 8); (KU, 1); (KU, 2); (KU, 4); (KU, 8); (KF, 4); (KF, 8)] ->
+  exists name k' sz' be',
+    get_hdf5_data_type (byteorder_char (mkNp k sz be)) (kind_char (mkNp k sz be)) sz = Some name /\
+    h5_predef name = Some (k', sz', be') /\ k' = k /\ sz' = sz /\ (sz = 1 \/ be' = be).
+Proof. exact dtype_table_faithful. Qed.
+Print Assumptions C01_element_type_faithful.
